@@ -66,7 +66,7 @@ func generateICMPRequestID() uint64 {
 
 // deriveICMPSessionKey performs ECDH key exchange and derives a session key for ICMP sessions.
 // The ephPrivKey is zeroed after use.
-// Returns nil if the remote key is zero (encryption disabled), or an error if ECDH fails.
+// Returns an error if the remote key is zero (encryption is mandatory) or if ECDH fails.
 func deriveICMPSessionKey(
 	ephPrivKey *[32]byte,
 	ephPubKey [32]byte,
@@ -75,7 +75,7 @@ func deriveICMPSessionKey(
 ) (*crypto.SessionKey, error) {
 	var zeroKey [protocol.EphemeralKeySize]byte
 	if remotePubKey == zeroKey {
-		return nil, nil
+		return nil, fmt.Errorf("encryption required: ICMP_OPEN_ACK without ephemeral key")
 	}
 
 	sharedSecret, err := crypto.ComputeECDH(*ephPrivKey, remotePubKey)
@@ -347,14 +347,13 @@ func (a *Agent) handleICMPEcho(peerID identity.AgentID, frame *protocol.Frame) {
 		socks5Assoc := ingress.SOCKS5Assoc
 		ingress.mu.RUnlock()
 
-		var plaintext []byte
-		if sessionKey != nil {
-			plaintext, err = sessionKey.Decrypt(echo.Data)
-			if err != nil {
-				return
-			}
-		} else {
-			plaintext = echo.Data
+		// Encryption is mandatory: without a session key nothing is relayed.
+		if sessionKey == nil {
+			return
+		}
+		plaintext, err := sessionKey.Decrypt(echo.Data)
+		if err != nil {
+			return
 		}
 
 		// Forward to SOCKS5 client
@@ -398,7 +397,8 @@ func (a *Agent) handleICMPEcho(peerID identity.AgentID, frame *protocol.Frame) {
 				errStr = err.Error()
 			}
 		} else {
-			plaintext = echo.Data
+			// Encryption is mandatory: never pass an unauthenticated payload through.
+			errStr = "no session key"
 		}
 
 		// Send to WebSocket via channel
@@ -682,15 +682,13 @@ func (a *Agent) RelayICMPEcho(streamID uint64, identifier, sequence uint16, payl
 	nextHop := assoc.NextHop
 	assoc.mu.RUnlock()
 
-	var ciphertext []byte
-	var err error
-	if sessionKey != nil {
-		ciphertext, err = sessionKey.Encrypt(payload)
-		if err != nil {
-			return err
-		}
-	} else {
-		ciphertext = payload
+	// Encryption is mandatory: never send the payload in plaintext.
+	if sessionKey == nil {
+		return fmt.Errorf("ICMP session has no session key")
+	}
+	ciphertext, err := sessionKey.Encrypt(payload)
+	if err != nil {
+		return err
 	}
 
 	echo := &protocol.ICMPEcho{
@@ -944,16 +942,15 @@ func (a *Agent) runWSICMPSender(session *icmpWebSocketSession) {
 			streamID := session.StreamID
 			session.mu.RUnlock()
 
-			var ciphertext []byte
-			var err error
-			if sessionKey != nil {
-				ciphertext, err = sessionKey.Encrypt(req.Payload)
-				if err != nil {
-					a.logger.Debug("failed to encrypt ICMP payload", "error", err)
-					continue
-				}
-			} else {
-				ciphertext = req.Payload
+			// Encryption is mandatory: never send the payload in plaintext.
+			if sessionKey == nil {
+				a.logger.Debug("ICMP session has no session key, dropping echo request")
+				continue
+			}
+			ciphertext, err := sessionKey.Encrypt(req.Payload)
+			if err != nil {
+				a.logger.Debug("failed to encrypt ICMP payload", "error", err)
+				continue
 			}
 
 			echo := &protocol.ICMPEcho{
